@@ -21,6 +21,7 @@ EXEC: contextvars.ContextVar = contextvars.ContextVar("vt_execution", default=No
 
 PID = "C12"
 RULE = (
+    "[plus a small 'cli_wiring' part: generated `taskiq worker` flag sets parsed by the real WorkerArgs.from_cli and turned into a receiver by the real start_listen(); --no-propagate-errors switches exception propagation off, default on] "
     "Hypothesis-generated programs: a task with a dependency DAG of 1-6 nodes (depth <= 3) mixing plain sync/async "
     "functions with the four teardown styles (generator, async generator, @contextmanager, @asynccontextmanager), each "
     "edge cached or use_cache=False, a node may fail before its yield (dependency-resolution failure), a yielding node "
@@ -211,3 +212,33 @@ def known(case: Dict[str, Any], v: Violation, out: Outcome) -> Optional[str]:
 SELFTEST_CASES = [{"nodes": [{"style": "gen", "ctx": False, "sleep": 0, "fail": None, "swallow": False, "deps": []},
                              {"style": "acm", "ctx": False, "sleep": 0, "fail": None, "swallow": True, "deps": [[0, True]]}],
                    "task_deps": [[1, True]], "outcome": "raise", "propagate": True, "ack_type": "when_saved", "starts": [0, 0]}]
+
+
+
+# ---------------------------------------------------------------- CLI wiring: from worker flags to the receiver
+#
+# --no-propagate-errors switches exception propagation off, default on.  Flags are parsed with the real WorkerArgs.from_cli and the real start_listen() builds the receiver
+# (a recording subclass whose listen() returns at once).
+
+from vt.harness import cliwire as _cliwire
+
+_parts_core = parts
+_run_core = run_case
+
+
+def parts(tier: str) -> List[Part]:  # type: ignore[no-redef]
+    ps = _parts_core(tier)
+    ps.append(Part("cli_wiring", "given", shards=1, examples=1500 if tier == "thorough" else 150,
+                   strategy=lambda: _cliwire.FLAGS.map(lambda f: {"flags": f}), soft_deadline_s=300))
+    return ps
+
+
+def run_case(case: Dict[str, Any]) -> Outcome:  # type: ignore[no-redef]
+    if "flags" not in case:
+        return _run_core(case)
+    out = Outcome()
+    out.clauses_checked = ["C12.d"]
+    _cliwire.check(case["flags"], ['propagate_exceptions'], "C12.d", out)
+    out.nontrivial = any(case["flags"].get(k) not in (None, False) for k in case["flags"])
+    out.classes = ["cli_wiring"]
+    return out
